@@ -56,8 +56,25 @@ Definition limitBelow (dt : t) (nf psd : list t) : list t :=
 Definition limitAbove (dt : t) (nf psd : list t) : list t :=
   hd (zero O) nf ::
   zipWith (fun f p => if ltb O p (mul O f dt) then dvd O p dt else f) (tail_ nf) psd.
+(* third stage (kawin commit "fix: limit the total outflow of a size class"): a class can lose through
+   both faces; the two outgoing fluxes are scaled so that the total leaving is at most what it holds
+     outflow = (maximum(-nf[:-1], 0) + maximum(nf[1:], 0)) * dt
+     scale   = psd / outflow  where outflow > psd, else 1
+     nf[:-1] = where(nf[:-1] < 0, nf[:-1] * scale, nf[:-1]) ; nf[1:] = where(nf[1:] > 0, nf[1:] * scale, nf[1:]) *)
+Definition outflowOf (dt fl fr : t) : t :=
+  mul O (add O (maxT O (negT O fl) (zero O)) (maxT O fr (zero O))) dt.
+Definition scaleOf (dt : t) (nf psd : list t) : list t :=
+  zip3 (fun fl fr p => let o := outflowOf dt fl fr in if ltb O p o then dvd O p o else one O)
+       (init_ nf) (tail_ nf) psd.
+Definition limitClass (dt : t) (nf psd : list t) : list t :=
+  let sc := scaleOf dt nf psd in
+  let nf1 := zipWith (fun f s => if ltb O f (zero O) then mul O f s else f) (init_ nf) sc
+             ++ [last nf (zero O)] in
+  hd (zero O) nf1 ::
+  zipWith (fun f s => if ltb O (zero O) f then mul O f s else f) (tail_ nf1) sc.
+
 Definition correctFlux (dt : t) (nf psd : list t) : list t :=
-  limitAbove dt (limitBelow dt nf psd) psd.
+  limitClass dt (limitAbove dt (limitBelow dt nf psd) psd) psd.
 
 Definition correctdXdt (dt : t) (bounds psd g : list t) (nucRate Rnuc : t) : list t :=
   dXdt_of (correctFlux dt (netFlux bounds psd g) psd) bounds nucRate Rnuc.
